@@ -583,7 +583,9 @@ Record body_ok (s0 s1 s2 : state) : Prop := mk_bok {
   bo_ret : st_ret s2 = None;
   bo_sp : st_reg s2 0 4 = st_reg s1 0 4;
   bo_fp : has_fp = true -> st_reg s2 0 5 = st_reg s1 0 5;
-  bo_regs : forall g r, Z.testbit (qget (fo_dirty o) g) r = false -> st_reg s2 g r = st_reg s1 g r;
+  (* round 6: only registers the convention PRESERVES need to be left alone when they are not in the dirty set - a body may
+     clobber volatile registers without declaring them *)
+  bo_regs : forall g r, Z.testbit (qget (fo_dirty o) g) r = false -> Z.testbit (qget (cc_preserved cc) g) r = true -> st_reg s2 g r = st_reg s1 g r;
   bo_mem : forall x, ~ body_may_write (st_reg s0 0 4) x -> st_mem s2 x = st_mem s1 x
 }.
 
